@@ -10,7 +10,7 @@ ID = "C09"
 DETERMINISTIC = True  # pure in-memory functions judged by a pure oracle: see runner (a failure seen once counts)
 RULE = (
     "case = two event lists (0..8 each) on a ms grid built as (gap,length) chains with gap,length from {0,1,2,3}+tail, the second list "
-    "independent or a perturbation of the first (edges shifted -1/0/+1, split, merged, nested), both shuffled; list one carries ids and labels. "
+    "independent or a perturbation of the first (edges shifted -1/0/+1, split, merged, nested), both shuffled; list one carries ids and labels; one case in four has the whole layout stretched from ms to whole seconds, hours, half days or days (class 'spans_of_a_day_or_more'). "
     "Intersection (non-overlapping lists): multiset of positive-length output pieces == brute-force {(max s, min e, data1, id1)} over all pairs, "
     "total duration == measure, inputs deep-equal before/after. Union (arbitrary, mutually overlapping lists, incl. the same two lists): output == "
     "unique list of maximal closed intervals, sorted, gaps > 0, data == {}. Non-trivial = some event meets >= 2 events of the other list, or an edge is shared."
@@ -35,6 +35,11 @@ def strategy(draw, tier="quick"):
         b = draw(iv.nonoverlap_layout(max_n=8))
     ua = draw(iv.arbitrary_layout(max_n=8))
     ub = draw(iv.arbitrary_layout(max_n=8))
+    # the same layout in another unit: one in four cases is stretched to whole seconds, hours, half days or days, so that
+    # pieces, gaps and sums reach and cross the fields a timedelta is made of (days / seconds / microseconds)
+    unit = draw(st.sampled_from([1] * 9 + [1000, 3_600_000, 43_200_000, 86_400_000]))
+    if unit != 1:
+        a, b, ua, ub = ([dict(e, s=e["s"] * unit, d=e["d"] * unit) for e in lst] for lst in (a, b, ua, ub))
     return {
         "a": iv.shuffled(draw, a),
         "b": iv.shuffled(draw, b),
@@ -162,6 +167,8 @@ def run_case(case):
     edges_b = {p for e in b for p in (e["s"], e["s"] + e["d"])}
     shared = bool(edges_a & edges_b)
     classes = []
+    if any(e["d"] >= 86_400_000 for e in case["a"] + case["b"]):
+        classes.append("spans_of_a_day_or_more")
     if multi:
         classes.append("one_meets_many")
     if shared:
